@@ -63,7 +63,7 @@ type liveSeries struct {
 }
 
 func (c09) Run(e *Env) {
-	e.ProbeDecl("expired", "reported-idle", "boundary-exact", "revived-after-expiry", "negative-expiry-single-flush", "zero-expiry-long-idle", "data-at-flush-instant", "histogram-timer-series", "small-value-pool", "huge-expiry-long-idle", "several-values-in-one-datagram", "node-variant", "datapoint-over-http", "older-datapoint-after-newer")
+	e.ProbeDecl("expired", "reported-idle", "boundary-exact", "revived-after-expiry", "negative-expiry-single-flush", "zero-expiry-long-idle", "data-at-flush-instant", "histogram-timer-series", "small-value-pool", "huge-expiry-long-idle", "several-values-in-one-datagram", "node-variant", "datapoint-over-http", "older-datapoint-after-newer", "datapoint-just-before-a-grid-point")
 	if e.Chance(1, 4) {
 		c09Node(e) // http ingestion and late maps into the real BackendHandler instead of datagrams into a server
 		return
